@@ -503,6 +503,7 @@ type cresult struct {
 	xRC     int
 	out     map[string]obj
 	outDir  bool     // the output directory exists afterwards
+	outFile *obj     // the output path is a regular file afterwards (an entry named "." does that)
 	outside []string // objects outside the output directory that txtar-x changed or created
 }
 
@@ -583,6 +584,9 @@ func runCLI(work string, c ccase) cresult {
 	res.out = snapshot(out)
 	if st, err := os.Stat(out); err == nil && st.IsDir() {
 		res.outDir = true
+	} else if err == nil {
+		b, _ := os.ReadFile(out)
+		res.outFile = &obj{data: b, mode: st.Mode().Perm()}
 	}
 	return res
 }
@@ -869,6 +873,8 @@ func (rn *runner) cliCase(c ccase, tag string) {
 	}
 	if r.outDir {
 		snap["out"] = obj{dir: true}
+	} else if r.outFile != nil {
+		snap["out"] = *r.outFile
 	}
 	rn.checkModes(map[string]obj{}, r.out, in, "cli:"+mustJSON(c))
 	rcs := "ok"
